@@ -18,8 +18,8 @@ PROP = {
             ["bbr-real-quic"], race=False, timeout_quick=900, timeout_thorough=5400),
     ],
     "min_events": 100000,
-    "rule": ("traces: PRNG traces stratified over 11 kinds x 3 profiles (conservative/standard/aggressive): capacity "
-             "0.3..1000 Mbit/s, propagation RTT 5..500 ms (plus a long-RTT class: 1.5..5 s at 0.3..8 Mbit/s, RTT known from the handshake), tail-drop queue 0.1..4 BDP, random loss 0..10 %, burst loss, "
+    "rule": ("traces: PRNG traces stratified over 12 kinds x 3 profiles (conservative/standard/aggressive): capacity "
+             "0.3..1000 Mbit/s, propagation RTT 5..500 ms (plus a long-RTT class: 1.5..5 s at 0.3..8 Mbit/s, RTT known from the handshake, and a LAN class: 0.1..2 ms at 0.5..10 Gbit/s), tail-drop queue 0.1..4 BDP, random loss 0..10 %, burst loss, "
              "blackouts (PTO probes that silently take the oldest packet out of flight, skipped packet number), ACK every "
              "1/2/4/10 packets with delayed-ACK timer, ACK aggregation 1..80 ms, ACK loss/jitter, data reordering, "
              "application-limited bursts and bulk/idle phases, packet-number gaps of 1..3 every >=8 packets, runs of <=19 "
@@ -27,7 +27,8 @@ PROP = {
              "congestion event (start 1200/1252/1280/1350, seed min(start,1280)), 0..4 packets sent before the controller "
              "was installed, small maximum windows (40..440 packets) to reach the upper clamp; loss detection by packet "
              "(3) and time (9/8 RTT) threshold, event lists ascending and never both empty, ACK events >=10 us apart. "
-             "progress: loss-free fixed-capacity links x 3 profiles, queue >= BDP, 20 virtual seconds, second-half goodput "
+             "progress: loss-free fixed-capacity links x 3 profiles (WAN links 1..500 Mbit/s x 5..300 ms for 20 virtual seconds; "
+             "short-RTT fast paths 1..10 Gbit/s x 0.1..1.9 ms, BDP >> initial window, for 0.2..0.8 virtual seconds), queue >= BDP, second-half goodput "
              "vs capacity and quiescence-with-data (deadlock) check; runs with a queue drop are excluded and counted. "
              "real-quic: real quic-go server->client bulk transfers (3 profiles x (3 links + one 2.2 s-RTT link), plus lossy/reordering/shallow-"
              "queue routers in thorough) with the monitor installed by SetCongestionControl after Accept. After every "
@@ -42,10 +43,10 @@ PROP = {
         "QUIC-consistent = what quic-go's sentPacketHandler can emit for the application-data packet number space after "
         "the handshake (BBR is installed after the handshake by Hysteria); the structural predicate encoding this is "
         "asserted on every simulator trace and on the call sequences recorded from real quic-go",
-        "simulator parameter ranges: ACK events >= 10 us apart, capacity <= 1 Gbit/s, RTT <= 500 ms, or RTT <= 5 s at <= 8 Mbit/s (rtt x bandwidth inside 63 bits)",
+        "simulator parameter ranges: ACK events >= 10 us apart, capacity <= 1 Gbit/s, RTT <= 500 ms, or RTT <= 5 s at <= 8 Mbit/s, or <= 10 Gbit/s at RTT <= 2 ms (rtt x bandwidth inside 63 bits; receivers on multi-Gbit/s paths ack every >= 25 us worth of packets)",
         "QUIC has an RTT measurement (from the handshake) before the controller is installed",
         "'not far below capacity' is the calibrated threshold 50 % of capacity over the second half of 20 virtual seconds "
-        "(measured 93..99 % on the unchanged tree), not a theorem",
+        "(measured 93..100 % on WAN links, 84..91 % on sub-millisecond multi-Gbit/s links, on the unchanged tree), not a theorem",
         "'packets in flight' = retransmittable packets given to OnPacketSent and not yet reported acked/lost, aged by QUIC's "
         "packet-threshold rule; bookkeeping bound constants K=8, C=24, C0=64 justified in c12_mon_test.go",
         "bbr_sender.go draws its PROBE_BW gain-cycle offset from math/rand's global source; the harness seeds it per case",
